@@ -46,7 +46,8 @@ def make_rhs(dof, gT, gV, ordering):
 def one_step(cls, rhs, mask, y, h, split):
     n = len(y)
     if split:
-        integ = cls((n,), dtype=np.float64, staggered_mask=mask)
+        # mask None = the integrator's default (second half of the variables are the momenta)
+        integ = cls((n,), dtype=np.float64, staggered_mask=mask) if mask is not None else cls((n,), dtype=np.float64)
         integ.step(rhs, np.float64(0.0), y.copy(), {}, np.float64(h))
         return y + np.array(integ.dState)
     integ = cls((n,), dtype=np.float64, rtol=1e-13, atol=1e-13)
@@ -74,6 +75,10 @@ def run(ctx):
                (I.GaussLegendre4, False), (I.GaussLegendre6, False), (I.ImplicitMidpoint, False)]
     flagged = sorted(c.__name__ for c in I.explicit_methods() + I.implicit_methods() if c.symplectic)
     ctx.corr("symplectic-flag-registry", flagged == sorted(c.__name__ for c, _ in methods), dict(flagged=flagged))
+    # every method the LIBRARY flags symplectic is put to the test, whatever the list above says
+    for c in I.explicit_methods() + I.implicit_methods():
+        if c.symplectic and c not in [m for m, _ in methods]:
+            methods.append((c, issubclass(c, de.integrators.integrator_types.ExplicitSymplecticIntegrator)))
     reps = 2 if ctx.quick() else 10
     ctx_reused = {}
     for cls, split in methods:
@@ -115,6 +120,13 @@ def run(ctx):
                         back = float(np.max(np.abs(y2 - y)))
                         ctx.oracle("time-reversible", back <= (1e-12 if split else 1e-9), dict(inp, defect=back),
                                    what="a step of h followed by a step of -h misses the start by %.2e" % back)
+                    if split and ordering == "block":
+                        # the default kick mask (no mask given) is the block ordering: same step as with the explicit mask
+                        yd = one_step(cls, rhs, None, y, h, True)
+                        ctx.oracle("default-mask-is-block-ordering", float(np.max(np.abs(yd - y1))) <= 1e-15 * (1 + float(np.max(np.abs(y1)))),
+                                   dict(inp, mode="default-mask", difference=float(np.max(np.abs(yd - y1)))),
+                                   what="the step with the default kick mask differs from the step with the explicit block mask by %.2e (n = %d variables)" % (float(np.max(np.abs(yd - y1))), n))
+                        ctx.count("mode:default-mask:n=%d" % n)
                     if split:
                         # the same checks with ONE integrator object through __call__: forth from t=0 and back from t=h, state after state
                         R = ctx_reused.setdefault((cls.__name__, hname, ordering), Reused(cls, n, mask))
